@@ -26,6 +26,7 @@ type Contract struct {
 	MustDefer []string // callee names that must be called through defer (so that they also run on a panicking exit)
 	NoStores []string // struct field names that the function (and what it inlines) must never store to
 	FullLoops []string // loop keys: the loop is left only through its header test
+	NoMapDeletes []string // struct field names holding maps from which the function must never delete an entry
 	AfterLoops []*AfterLoop // calls that may only happen after a loop has run to its end
 	Confines  []*Confine // parameters whose contents the function reads only through the listed callees
 	OnSlices  []*OnStore // assertions at every slice expression p[lo:hi] of the named parameter ($lo, $hi)
@@ -61,6 +62,7 @@ type Contracts struct {
 	Assumed []string
 	StableStructs []string // struct types whose fields are not reachable from evaluated Lisp code: kept across opaque calls (assumed)
 	PureMethods map[string]bool // "Iface.Method": dynamic calls are a pure function of the receiver (assumed)
+	PureFuncs   map[string]bool // "pkg.func": static calls are a pure function of the argument values (assumed)
 	Sweeps map[string][]string // package-wide contracts: "operands-kept" -> packages ("cl", "slip")
 }
 
